@@ -228,17 +228,66 @@ func c17Case(c *core.Ctx, idx int) {
 	}
 }
 
+// c17ScaledSkip: scaled shapes that contain a construct recorded as a formatter finding (§7 #30) or that the
+// formatter's own conventions make pointless (token-internal blanks); every other shape must pass.
+var c17ScaledSkip = map[string]string{
+	"keyed-array-items":            "array with a trailing comma (recorded finding C17 #30)",
+	"many-comments-between-tokens": "array with a trailing comma (recorded finding)",
+	"nested-array-calls":           "empty array() (recorded finding)",
+	"html-php-alternation":         "inline HTML (recorded finding)",
+	"inline-html-many-lines":       "inline HTML (recorded finding)",
+	"nowdoc-many-lines":            "nowdoc becomes a heredoc (recorded finding)",
+}
+
+// c17Scaled: one construct repeated or nested n times (gen.ScaledShapes) through the single-source checks:
+// counts, nesting depth and list lengths that the 1-3 statement programs never reach.
+func c17Scaled(c *core.Ctx, idx int) {
+	r := core.NewRand(c.P.Seed, "C17scaled", idx)
+	sh := gen.ScaledShapes[r.Intn(len(gen.ScaledShapes))]
+	if _, skip := c17ScaledSkip[sh.Name]; skip {
+		return
+	}
+	fam, ver := 7, r.Pick("7.4", "7.2", "7.0")
+	if sh.Fam == 0 && r.Chance(1, 3) {
+		fam, ver = 5, r.Pick("5.6", "5.4")
+	}
+	n := r.Range(1, 12)
+	if r.Chance(1, 3) {
+		n = r.Range(12, 60)
+	}
+	src := []byte(sh.Make(n, "\n"))
+	c.Inflight(src, "C17 scaled "+ver)
+	res := fmtCheck(src, ver)
+	switch res.class {
+	case "":
+		c.Add("scaled_programs_formatted_and_checked", 1)
+		c.Cover("scaled_shapes", sh.Name)
+		c.Max("max_repetitions_or_depth_formatted", int64(n))
+		c.NonTrivial(src, []byte(ver))
+	case "input-rejected":
+		c.Inconclusive("scaled program not accepted")
+	default:
+		c.Violation(fmt.Sprintf("format|%s|scaled:%s", strings.SplitN(res.class, ":", 2)[0], sh.Name), fmt.Sprintf("%s on the scaled program %s (n=%d, PHP %d): %s", res.class, sh.Name, n, fam, res.detail), core.W(src, ver).With("shape", sh.Name).With("n", fmt.Sprint(n)))
+	}
+}
+
 func init() {
 	core.Register(&core.Check{
 		ID:   "C17",
-		Rule: "cases = known-finding witnesses ++ generated PHP-mode programs (G1, 1-3 statements, depth 1-3, both families) in the canonical layout (format, print, reparse, structure equality, idempotence) and 4 further whitespace-only layouts (identical formatted text); a failing program is reduced on the abstract tree to its deepest failing stand-alone sub-construct; non-trivial = program that passed through all checks; distinct by (source, version)",
+		Rule: "cases = known-finding witnesses ++ generated PHP-mode programs (G1, 1-3 statements, depth 1-3, both families) in the canonical layout (format, print, reparse, structure equality, idempotence) and 4 further whitespace-only layouts (identical formatted text); a failing program is reduced on the abstract tree to its deepest failing stand-alone sub-construct; every 25th case is a scaled program (one construct repeated or nested 1..60 times, 65 shapes) through the single-source checks; non-trivial = program that passed through all checks; distinct by (source, version)",
 		Assumptions: []string{
 			"structure = kinds, roles, order and Value bytes",
 			"whitespace-only layouts vary blanks and line terminators between tokens (no comments, nothing after the last token)",
 			"formatter defects are recorded per (failure class, focal construct kind); a new defect in a kind that already fails in the same class is not distinguishable",
 		},
 		Plan: func(p core.Params) int { return p.Pick(100000, 800000) },
-		Run:  func(c *core.Ctx, idx int) { c17Case(c, idx) },
+		Run: func(c *core.Ctx, idx int) {
+			if idx%25 == 7 {
+				c17Scaled(c, idx)
+				return
+			}
+			c17Case(c, idx)
+		},
 		RunWitness: func(c *core.Ctx, w core.Witness) {
 			res := fmtCheck(w.Src, w.Ver)
 			if res.class == "" && w.Cfg["variant"] != "" {
